@@ -242,6 +242,9 @@ def st_Assign(ip, s, st):
 
 def assign_to(ip, target, v, st):
     """returns list of states"""
+    if getattr(v, "ephemeral", False) and not (isinstance(target, ast.Subscript) and isinstance(target.slice, ast.Slice)):
+        # (lib_graph.map_symbolic: a lazy map object is modelled only where it is consumed at once)
+        raise U("a lazy map object over a list of symbolic length is stored instead of being consumed at once")
     if isinstance(target, ast.Name):
         st.env[target.id] = v
         return [st]
@@ -286,7 +289,8 @@ def assign_to(ip, target, v, st):
     if isinstance(target, ast.Subscript):
         res = []
         if isinstance(target.slice, ast.Slice):
-            raise U("slice assignment")
+            from .lib_graph import slice_assign       # `xs[:] = iterable` on a list of numbers (else out-of-subset)
+            return slice_assign(ip, target, v, st)
         for s2, (base, idx) in ip.ev_many([target.value, target.slice], st):
             res += store_item(ip, s2, base, idx, v)
         return res
@@ -1104,6 +1108,32 @@ def call_frame(ip, call, h):
         c = fv.contract
     elif isinstance(fv, Fun) and fv.kind == "bound":
         c, selfv = fv.contract, fv.self_ref
+    elif isinstance(fv, Fun) and fv.kind == "builtin" and fv.name == "next" and len(call.args) == 1 and not call.keywords:
+        # next(obj) on an instance of a repository class is obj.__next__() (builtins_.call_builtin): that contract's frame
+        try:
+            ip.spec_mode += 1
+            try:
+                ov = ip.ev1(call.args[0], h)
+            finally:
+                ip.spec_mode -= 1
+        except Exception:
+            return []
+        if isinstance(ov, Ref) and isinstance(h.heap.get(ov.cid), ObjCell):
+            c = ip.contracts.find_method(h.heap[ov.cid].cls, "__next__")
+            if c is None:
+                return []
+            if c.inline or c.cases:
+                raise U("next(obj) in a loop body: %s needs one plain contract with a `modifies` frame" % c.name)
+            if not c.modifies:
+                return []
+            out = []
+            for m in c.modifies:
+                mn = ast.parse(m, mode="eval").body
+                if not (isinstance(mn, ast.Attribute) and isinstance(mn.value, ast.Name)
+                        and mn.value.id == list(c.params.keys())[0]):
+                    raise U("next(obj) in a loop body: frame entry `%s` of %s is not a field of the object" % (m, c.name))
+                out.append(("field", ov, mn.attr))
+            return out
     if c is None or not c.modifies:
         return []
     out = []
